@@ -1089,7 +1089,10 @@ namespace k1
             });
             sink.count("c09_partial_scoped_ops", 4);
         }
-        uint64_t h = hmix(hashStr("k1" + describe(dsp.get())), hashStr(describe(ssp.get())));
+        std::vector<int> sigD, sigS;
+        dsp->computeSignature(sigD);
+        ssp->computeSignature(sigS);
+        uint64_t h = hmix(hashStr("k1" + sigStr(sigD)), hashStr(sigStr(sigS)));  // automatic subspace names are process-history dependent: not hashed
         sink.noteCase(hmix(h, (uint64_t)c), dstCovered > 0);
         sink.sample(J().str("kind", "partial-copy").str("dest", describe(dsp.get())).str("source", describe(ssp.get())).str("expected_code", codeName(expectCode)).u("common_names", common.size()));
     }
@@ -2365,7 +2368,7 @@ int main(int argc, char **argv)
     ompl::msg::setLogLevel(ompl::msg::LOG_NONE);
     atexit(rmtmpdir);
     Sink sink(a);
-    long total = (long)((a.thorough() ? 6400 : 1280) * a.scale);
+    long total = (long)((a.thorough() ? 8000 : 1280) * a.scale);
     // case kinds in a fixed rotation of 16: 3x state round trips, 2x partial copies, 4x StateStorage, 5x geometric, 2x control
     static const int rota[16] = {0, 3, 2, 1, 3, 4, 2, 0, 3, 2, 1, 3, 4, 2, 0, 3};
     for (long c = 0; c < total; ++c)
